@@ -211,11 +211,30 @@ func (r *rewriter) rewriteNode(n ast.Node) {
 			st.Sync++
 		case *ast.SendStmt:
 			if !r.nonBlocking[x] {
-				fatal("channel send at %s: blocking channel operations are not mediated", r.pos(x))
+				// buffered channels are mediated by simrt (a send is granted when it cannot block)
+				if _, labeled := c.Parent().(*ast.LabeledStmt); labeled {
+					fatal("labelled channel send at %s cannot be mediated", r.pos(x))
+				}
+				c.Replace(&ast.ExprStmt{X: &ast.CallExpr{Fun: sel("simrt", "ChanSend"), Args: []ast.Expr{x.Chan, x.Value, r.site()}}})
+				r.changed = true
+				st.Sync++
 			}
 		case *ast.UnaryExpr:
 			if x.Op == token.ARROW && !r.nonBlocking[x] {
-				fatal("channel receive at %s: blocking channel operations are not mediated", r.pos(x))
+				fn := "ChanRecv"
+				switch p := c.Parent().(type) {
+				case *ast.AssignStmt:
+					if len(p.Lhs) == 2 && len(p.Rhs) == 1 {
+						fn = "ChanRecv2"
+					}
+				case *ast.ValueSpec:
+					if len(p.Names) == 2 && len(p.Values) == 1 {
+						fn = "ChanRecv2"
+					}
+				}
+				c.Replace(&ast.CallExpr{Fun: sel("simrt", fn), Args: []ast.Expr{x.X, r.site()}})
+				r.changed = true
+				st.Sync++
 			}
 		}
 		return true
@@ -408,6 +427,32 @@ var ambientRefused = map[string]bool{
 }
 
 func (r *rewriter) rewriteCall(c *astutil.Cursor, call *ast.CallExpr) {
+	if id, ok := call.Fun.(*ast.Ident); ok {
+		if _, builtin := r.p.TypesInfo.Uses[id].(*types.Builtin); builtin && len(call.Args) > 0 {
+			switch id.Name {
+			case "close":
+				call.Fun = sel("simrt", "ChanClose")
+				call.Args = append(call.Args, r.site())
+				r.changed = true
+				st.Sync++
+			case "make":
+				if t := r.p.TypesInfo.TypeOf(call.Args[0]); t != nil {
+					if _, isChan := t.Underlying().(*types.Chan); isChan {
+						if len(call.Args) < 2 {
+							fatal("make of an unbuffered channel at %s: only buffered channels are mediated", r.pos(call))
+						}
+						if tv, ok := r.p.TypesInfo.Types[call.Args[1]]; ok && tv.Value != nil && tv.Value.String() == "0" {
+							fatal("make of an unbuffered channel at %s: only buffered channels are mediated", r.pos(call))
+						}
+						c.Replace(&ast.CallExpr{Fun: sel("simrt", "ChanMake"), Args: []ast.Expr{call, r.site()}})
+						r.changed = true
+						st.Sync++
+					}
+				}
+			}
+		}
+		return
+	}
 	se, ok := call.Fun.(*ast.SelectorExpr)
 	if !ok {
 		return
